@@ -779,3 +779,6 @@ def workload(ctx):
         ctx.floor("handler:EvaluationMapper." + h
                   if h != "map_common_subexpression"
                   else "handler:CSECachingMapperMixin.map_common_subexpression", 20)
+
+
+RULE = RULE + '  Later additions: every pair of 19 number kinds; registered constant classes; re-entrant evaluation from a function of the environment; fail / fail again / repair histories on one evaluator; streams of temporaries.'
